@@ -126,4 +126,50 @@ def AdmissibleTop : Expr → Prop
   | .lit _ => True
   | e => Admissible e
 
+/-! ### Argument lists: what "split at unquoted, unbraced white space" means
+
+An argument list is a sequence of pieces separated by white space.  A piece is a bare word, a quoted
+string, or a braced group; the text inside braces is any text in which braces and quotes are balanced
+(`Inner`).  The value of a piece is the word, the string without its quotes, the group verbatim. -/
+
+/-- Text that may stand inside braces: no backslash, quotes paired, braces nested. -/
+inductive Inner : List Char → Prop
+  | nil : Inner []
+  | char (c : Char) (t : List Char) : special c = false → Inner t → Inner (c :: t)
+  | quoted (s t : List Char) : plain s = true → Inner t → Inner (['"'] ++ s ++ ['"'] ++ t)
+  | braces (b t : List Char) : Inner b → Inner t → Inner (['{'] ++ b ++ ['}'] ++ t)
+
+inductive Piece where
+  | bare (s : List Char)
+  | quoted (s : List Char)
+  | braced (body : List Char)
+
+def Piece.text : Piece → List Char
+  | .bare s => s
+  | .quoted s => ['"'] ++ s ++ ['"']
+  | .braced b => ['{'] ++ b ++ ['}']
+
+def Piece.value : Piece → List Char
+  | .bare s => s
+  | .quoted s => s
+  | .braced b => ['{'] ++ b ++ ['}']
+
+def Piece.ok : Piece → Prop
+  | .bare s => Rare.C09.bare s = true
+  | .quoted s => plain s = true
+  | .braced b => Inner b
+
+def allSpace (w : List Char) : Bool := w.all isSpace
+
+/-- Pieces, each preceded by its white space. -/
+def layout : List (List Char × Piece) → List Char
+  | [] => []
+  | (w, p) :: rest => w ++ p.text ++ layout rest
+
+/-- Every piece is well formed, is preceded by white space only, and all but the first are preceded by
+    at least one white-space character. -/
+def LayoutOk : Bool → List (List Char × Piece) → Prop
+  | _, [] => True
+  | first, (w, p) :: rest => allSpace w = true ∧ (first = true ∨ w ≠ []) ∧ p.ok ∧ LayoutOk false rest
+
 end Rare.C09
